@@ -66,6 +66,9 @@ def gen_cases(tier):
     # the other routes to the same request: content as list / tuple / (content, mode) parts, the command line tool (--mode, --seq)
     for i in range(len(ROUTE_CONTENTS)):
         yield ('routes', i)
+    # an explicit encoding must not change the rule (hanzi is never chosen automatically, also not with encoding='gb2312')
+    for i in range(len(ENC_CONTENTS)):
+        yield ('encodings', i)
     # histories: the same content requested with every ordered pair (thorough: triple) of modes in one process
     for i in range(len(ROUTE_CONTENTS)):
         yield ('history', i)
@@ -197,6 +200,42 @@ def judge(content, data, mode, version, acc, entry='make'):
         acc.violation('payload', 'payload %r != %r in mode %r' % (rep.payload, data, qr.mode), case)
 
 
+ENC_CONTENTS = ['\u4e66\u8bfb\u767e\u904d', '\u4e66', '\u70b9\u8317', '123', 'ABC', 'abc', '\u3042\u3044', 'h\xe9llo', '\u0416\u0437']
+ENCODINGS = ('gb2312', 'GB2312', 'gbk', 'shift_jis', 'Shift_JIS', 'cp932', 'utf-8', 'iso-8859-1', 'latin1', 'euc_jp', 'iso-8859-5')
+
+
+def encodings_case(content, acc):
+    for enc in ENCODINGS:
+        try:
+            data = content.encode(enc)
+        except UnicodeError:
+            data = None
+        for entry in ('make', 'make_qr'):
+            case = ('enc1', content, enc, entry)
+            try:
+                qr = ENTRY[entry](content, encoding=enc)
+                exc = None
+            except Exception as e:
+                qr, exc = None, e
+            acc.eval(case, nontrivial=qr is not None, outcome=qr.mode if qr is not None else 'exc:' + C.exc_name(exc), state=('enc', enc, entry))
+            if qr is None:
+                if not isinstance(exc, ValueError):
+                    acc.violation('refusal-type/%s/encoding' % C.exc_name(exc), '%s(%r, encoding=%r) raised %s' % (entry, content, enc, C.exc_name(exc)), case)
+                elif data is not None:
+                    acc.violation('refused-representable/encoding', '%s(%r, encoding=%r) refused (%s) although the text is encodable' % (entry, content, enc, str(exc)[:50]), case)
+                continue
+            if data is None:
+                continue                 # (the library falls back to another encoding: C01 judges the bytes)
+            allowed = Mo.auto_modes(data)
+            if qr.mode not in allowed:
+                acc.violation('wrong-mode/%s->%s' % (sorted(allowed), qr.mode), '%s(%r, encoding=%r) used mode %r, the first applicable mode for the bytes %r is %r'
+                              % (entry, content, enc, qr.mode, data, sorted(allowed)), case)
+            rep = C.read(qr)
+            seg_modes = [s_.mode for s_ in rep.segments or ()]
+            if seg_modes != [qr.mode]:
+                acc.violation('reported-mode', 'QRCode.mode=%r but the symbol holds mode indicator(s) %r' % (qr.mode, seg_modes), case)
+
+
 def expected(content, mode):
     if isinstance(content, bytes):
         return content
@@ -278,6 +317,10 @@ def run_case(case, acc):
                     judge(content, d, m, None, acc, entry=e)
                     if m is not None:
                         judge(content, d, m.upper(), None, acc, entry=e)
+    elif kind == 'encodings':
+        encodings_case(ENC_CONTENTS[case[1]], acc)
+    elif kind == 'enc1':
+        encodings_case(case[1], acc)
     elif kind == 'history':
         content = ROUTE_CONTENTS[case[1]]
         seqs = list(itertools.permutations((None,) + MODES, 2)) + [(m, m) for m in (None,) + MODES]
